@@ -61,16 +61,6 @@ end Model.Sync
 
 namespace Model
 
-/-- `ReadBackoff` idle time (client.go:1118-1151): 1 s when the connection is
-still there (Persistence error), the maximum for a refusal, otherwise the
-doubling ramp clamped to [min, max]. Durations in any unit. -/
-def readBackoffIdle (wait min max : Nat) (readConnPresent refused : Bool) : Nat × Nat :=
-  if readConnPresent then (1000000000, wait)
-  else if refused then (max, wait)
-  else
-    let idle := Nat.min (Nat.max wait min) max
-    (idle, idle * 2)
-
 /-- For every non-fatal error that needs a reconnect the wait lies within the
 configured bounds (`newClient` raises max to at least min), refusals wait the
 maximum, and consecutive failures double the wait. -/
